@@ -94,6 +94,12 @@ def rule_A1(F, R):
             for e in walk(t['body']):
                 if e['k'] == 'Call' and id(e) in ok_ids and (callee_name(e) or '') in ('std::result::Result::map', 'std::result::Result::map_err') and e['args'] and id(e['args'][0]) not in ok_ids:
                     ok_ids.add(id(e['args'][0])); changed = True
+                if id(e) in ok_ids and e['k'] in ('Block', 'If', 'Match', 'Use', 'NeverToAny') and 'TryDesugar' not in str(e.get('source')):
+                    # the value of a propagated block / branch (the body of an inlined helper under `?`) is the value of its tail expressions
+                    acc = []
+                    tail_exprs(e, acc)
+                    for x in acc:
+                        if id(x) not in ok_ids and x is not e: ok_ids.add(id(x)); changed = True
         # Ok(<call>?) is covered because the inner call sits under Try::branch
         ordinal = {}
         for e in walk(t['body']):
@@ -162,6 +168,26 @@ def helper_outcomes(lib, t, adv):
             if cn in ('std::option::Option::is_some', 'std::option::Option::is_none'):
                 o = ev(e['args'][0], env, sit)
                 return ('bool', (o[1] != 'none') == cn.endswith('is_some'))
+            if cn in ('std::option::Option::filter', 'std::option::Option::map', 'std::option::Option::inspect') and len(e['args']) == 2:
+                # found.filter(|t| **t == token).map(|_| ()): still "some token / none", narrowed by the test
+                o = ev(e['args'][0], env, sit)
+                if o[0] != 'opt': raise Undec('%s on something that is not the token read' % cn.split('::')[-1], e.get('loc'))
+                if o[1] == 'none' or not cn.endswith('filter'): return o
+                cl = peel(e['args'][1])
+                ct = lib.ithir.get(canon(cl['def'])) if cl['k'] == 'Closure' else None
+                if ct is None or len(ct['params']) != 2: raise Undec('closure', e.get('loc'))
+                env2 = dict(env); bind(ct['params'][1]['pat'], ('tok', o[1]), env2)
+                b_ = ev(ct['body'], env2, sit)
+                if b_[0] != 'bool': raise Undec('filter test is not decided by the situation', e.get('loc'))
+                return o if b_[1] else ('opt', 'none')
+            if cn in ('std::option::Option::ok_or', 'std::option::Option::ok_or_else') and e['args']:
+                o = ev(e['args'][0], env, sit)
+                if o[0] != 'opt': raise Undec('ok_or on something that is not the token read', e.get('loc'))
+                return ('result', 'err' if o[1] == 'none' else 'ok')
+            if cn in ('core::bool::<impl bool>::then_some', 'core::bool::<impl bool>::then') and e['args']:
+                b_ = ev(e['args'][0], env, sit)
+                if b_[0] != 'bool': raise Undec('then_some on an undecided test', e.get('loc'))
+                return ('opt', 'eq' if b_[1] else 'none')
             if cn.endswith('FromResidual>::from_residual'): return ('result', 'err')
             return ('other',)        # error construction, formatting
         if k == 'Binary' and e['op'] in ('Eq', 'Ne'):
@@ -333,12 +359,45 @@ class Walker:
         return [(s, 'val', ('tuple', vs) if vs else ('unit',)) for s, vs in outs] + ab
     def r_Array(self, e, st):
         outs, ab = self.run_seq(e['fields'], st)
-        return [(s, 'val', ('other',)) for s, vs in outs] + ab
+        return [(s, 'val', ('list', tuple(vs))) for s, vs in outs] + ab
     def r_Closure(self, e, st): return [(st, 'val', ('closure', canon(e['def'])))]
     def r_ZstLiteral(self, e, st):
         if 'fn' in e: return [(st, 'val', ('fnitem', canon(e['fn'].get('res') or e['fn']['def'])))]       # a function passed as a value (`Self::parse_variable_name`)
         return [(st, 'val', ('other',))]
-    def r_NamedConst(self, e, st): return [(st, 'val', ('other',))]
+    def r_NamedConst(self, e, st):
+        # a table kept in a const (`const OPERATOR_TOKENS: [(Token, Operator); 8] = [..]`): its rows
+        t = self.lib.ithir.get(canon(e.get('def') or ''))
+        if t is not None and getattr(self, '_depth', 0) < 6:
+            try:
+                self._depth = getattr(self, '_depth', 0) + 1
+                r = self.run(t['body'], St((), {}))
+            except Undec:
+                r = []
+            finally:
+                self._depth -= 1
+            if len(r) == 1 and r[0][1] == 'val' and not r[0][0].ev and self._concrete(r[0][2]): return [(st, 'val', r[0][2])]
+        return [(st, 'val', ('other',))]
+    def _concrete(self, v):
+        if v[0] in ('token', 'enum', 'lit', 'none', 'unit'): return True
+        if v[0] == 'some': return self._concrete(v[1])
+        if v[0] in ('tuple', 'list'): return all(self._concrete(x) for x in v[1])
+        return False
+    def _equal(self, a, b, loc):
+        """== on values known on this path; Undec when it depends on something unknown (the payload of a Var / Reference / Countable token)"""
+        if a[0] != b[0]:
+            if {a[0], b[0]} <= {'some', 'none'}: return False
+            raise Undec('comparison of %s with %s' % (a[0], b[0]), loc)
+        if a[0] in ('none', 'unit'): return True
+        if a[0] == 'some': return self._equal(a[1], b[1], loc)
+        if a[0] == 'token':
+            if a[1] != b[1]: return False
+            if a[1] in ('Var', 'Reference', 'Countable'): raise Undec('comparison of two %s tokens (the payload is not known)' % a[1], loc)
+            return True
+        if a[0] in ('enum', 'lit'): return a == b
+        if a[0] in ('tuple', 'list'):
+            if len(a[1]) != len(b[1]): return False
+            return all(self._equal(x, y, loc) for x, y in zip(a[1], b[1]))
+        raise Undec('comparison of %s values' % a[0], loc)
     def r_Field(self, e, st):
         return [(s, k, ('other',) if k == 'val' else v) for (s, k, v) in self.run(e['lhs'], st)]
     def r_Cast(self, e, st): return self.run(e['source'], st)
@@ -364,6 +423,9 @@ class Walker:
                 res.append((s, 'val', ('cons', e['variant'], [byidx.get(i) for i in range(n)], e['loc'])))
             elif adt == TOK:
                 res.append((s, 'val', ('token', e['variant'])))
+            elif byidx and e.get('adt_kind') != 'Struct':
+                n = max(byidx) + 1
+                res.append((s, 'val', ('enumv', adt, e['variant'], [byidx.get(i, ('other',)) for i in range(n)])))      # a variant carrying values (an intermediate result)
             else:
                 res.append((s, 'val', ('enum', adt, e['variant'])))
         return res + ab
@@ -376,7 +438,7 @@ class Walker:
                 if s_['k'] == 'Expr':
                     for (s2, k, v) in self.run(s_['expr'], s):
                         if k == 'val':
-                            if v == ('next',): s2 = s2.with_ev(('anytok', frozenset()))      # `tokens.next();` - the token is consumed, its value dropped
+                            if v == ('next',): s2 = self.consume_unnamed(s2)      # `tokens.next();` - the token is consumed, its value dropped
                             nxt.append(s2)
                         else: abrupt.append((s2, k, v))
                 else:
@@ -406,14 +468,37 @@ class Walker:
             else: out.append((s, 'val', ('unit',)))
         return out + abrupt
 
+    def consume_unnamed(self, st):
+        """`tokens.next();` with the value dropped: any token the look-ahead tests since the last consumption allow; when they leave exactly
+        one, it is that token, and what was bound to its payload while it was only peeked at is the payload of this consumption"""
+        pending = set()
+        for ev in reversed(st.ev):
+            if ev[0] in ('la', 'nla'): pending.add(ev)
+            else: break
+        a = allowed(frozenset(pending)) if pending else None
+        if a is not None and len(a) == 1 and 'NONE' not in a:
+            X = sorted(a)[0]
+            s2 = st.with_ev(('tok', X))
+            idx = len(s2.ev) - 1
+            env = {k_: (('ev', idx) if v_ == ('peekpayload', X) else v_) for k_, v_ in s2.env.items()}
+            return St(s2.ev, env)
+        return st.with_ev(('anytok', frozenset()))
+
     def concretize(self, v, st):
         """a token read whose value is kept (`let t = tokens.peek();`, `tokens.next().and_then(..)`) instead of being matched on the spot:
         one path per token that can be there, each with the test / consumption as its event and the token as a constant"""
         if v not in (('peek',), ('next',)): return [(st, v)]
         out = []
+        pending = set()          # what the look-ahead tests since the last consumption already say about the next token
+        for ev in reversed(st.ev):
+            if ev[0] in ('la', 'nla'): pending.add(ev)
+            else: break
+        feasible = allowed(frozenset(pending))
         for X in ALL_TOKENS:
+            if X not in feasible: continue
             s2 = st.with_ev(('la', frozenset([X]))) if v == ('peek',) else st.with_ev(('tok', X))
-            out.append((s2, ('none',) if X == 'NONE' else ('some', ('token', X))))
+            # third component: where the token's payload can be found (the consumption event, or "still in the reader")
+            out.append((s2, ('none',) if X == 'NONE' else ('some', ('token', X, 'peek' if v == ('peek',) else ('ev', len(s2.ev) - 1)))))
         return out
 
     def pm(self, p, v, st):
@@ -446,13 +531,22 @@ class Walker:
                 return self.pm(p['subs'][0]['pat'], v[1], st) if p['subs'] else st
             if adt == TOK and v[0] == 'token':
                 if p['variant'] != v[1]: return None
+                src = v[2] if len(v) > 2 else None
                 for sp in p.get('subs') or []:
                     for q in walk_pat(sp['pat']):
-                        if q['k'] == 'Binding': st = st.bind(q['var'], ('other',))
+                        if q['k'] == 'Binding':
+                            st = st.bind(q['var'], src if isinstance(src, tuple) else ('peekpayload', v[1]) if src == 'peek' else ('other',))
                 return st
             if v[0] == 'enum' and adt == v[1]:
                 if p['variant'] != v[2]: return None
                 if not p.get('subs'): return st
+            if v[0] == 'enumv' and adt == v[1]:
+                if p['variant'] != v[2]: return None
+                for sp in p.get('subs') or []:
+                    if sp['field'] >= len(v[3]): raise Undec('variant pattern wider than the value', p.get('loc'))
+                    st = self.pm(sp['pat'], v[3][sp['field']], st)
+                    if st is None: return None
+                return st
         if k == 'Constant' and v[0] == 'lit' and isinstance(v[1], bool):
             cv = str(p.get('value'))
             return st if (('true' in cv or '0x01' in cv) and v[1] is True) or (('false' in cv or '0x00' in cv) and v[1] is False) else None
@@ -462,6 +556,14 @@ class Walker:
         """call of a closure written in the parse function, or of a function handed over as a value, on values known on this path"""
         name = f[1]
         t = self.lib.ithir.get(name)
+        if t is None and f[0] == 'fnitem' and '::' in name:
+            # a variant constructor handed over as a function (`.map(Bound::Formulas)`)
+            adt, variant = name.rsplit('::', 1)
+            a_ = self.lib.adts.get(adt)
+            if a_ is not None and any(v_.get('name') == variant for v_ in a_['variants']):
+                if adt == SYN: return [(st, 'val', ('cons', variant, list(args), loc))]
+                if adt == TOK: return [(st, 'val', ('token', variant))]
+                return [(st, 'val', ('enumv', adt, variant, list(args)) if args else ('enum', adt, variant))]
         if t is None: raise Undec('call of %s, whose body is not known' % name, loc)
         if getattr(self, '_depth', 0) > 6: raise Undec('helper calls nested too deeply', loc)
         ps = [p for p in t['params'] if 'pat' in p]
@@ -628,6 +730,9 @@ class Walker:
                     if not fresh: continue
                     if v[0] == 'peek':
                         s2 = s.with_ev(('la', frozenset(fresh)))
+                        if bind_q is not None and len(fresh) == 1 and fresh[0] != 'NONE':
+                            for q_ in walk_pat(bind_q):
+                                if q_['k'] == 'Binding': s2 = s2.bind(q_['var'], ('peekpayload', fresh[0]))
                         out.extend(self.run(arm['body'], s2))
                     else:
                         for t in fresh:
@@ -637,7 +742,7 @@ class Walker:
                     earlier |= set(toks)
                     none_seen = none_seen or has_none
                 continue
-            if v[0] in ('some', 'none', 'tuple') or (v[0] == 'token' and any(q.get('subs') or q['k'] in ('Binding', 'Or') and q.get('sub') for arm in e['arms'] for q in walk_pat(arm['pat']))):
+            if v[0] in ('some', 'none', 'tuple', 'enumv') or (v[0] == 'token' and any(q.get('subs') or q['k'] in ('Binding', 'Or') and q.get('sub') for arm in e['arms'] for q in walk_pat(arm['pat']))):
                 out.extend(self.const_match(e, v, s)); continue
             if v[0] in ('enum', 'token', 'lit'):
                 # match on a value known on this path (a constant argument of a specialised parse function): the first arm that accepts it
@@ -765,7 +870,8 @@ class Walker:
             return res
         OPT = 'std::option::Option::'
         if cn in (OPT + 'and_then', OPT + 'map', OPT + 'copied', OPT + 'cloned', OPT + 'as_ref', OPT + 'is_none', OPT + 'is_some', OPT + 'ok_or', OPT + 'ok_or_else',
-                  OPT + 'filter', OPT + 'is_some_and', OPT + 'map_or', OPT + 'unwrap_or', OPT + 'or') and e['args']:
+                  OPT + 'filter', OPT + 'is_some_and', OPT + 'map_or', OPT + 'unwrap_or', OPT + 'or') and e['args'] and \
+                not (cn in (OPT + 'map_or', OPT + 'is_some_and') and self._plain_lookahead(e, st)):
             first = self.run(e['args'][0], st)
             res = []
             handled = True
@@ -798,8 +904,48 @@ class Walker:
                                     if v4[0] != 'lit': raise Undec('filter with a test that is not decided', loc)
                                     res.append((s4, 'val', v2 if v4[1] else ('none',)))
                                 else: res.append((s4, 'val', v4))
-            if handled and not (cn in (OPT + 'map_or', OPT + 'is_some_and') and len(first) == 1 and first[0][2] == ('peek',) and self._plain_lookahead(e, st)):
+            if handled: return res
+        if dn in ('std::cmp::PartialEq::eq', 'std::cmp::PartialEq::ne') and len(e['args']) == 2:
+            outs, ab = self.run_seq(e['args'], st)
+            if all(vs[0][0] in ('some', 'none', 'token', 'tuple', 'enum') and vs[1][0] in ('some', 'none', 'token', 'tuple', 'enum') for (_, vs) in outs):
+                res = list(ab)
+                for (s, vs) in outs:
+                    r_ = self._equal(vs[0], vs[1], loc)
+                    res.append((s, 'val', ('lit', r_ if dn.endswith('eq') else not r_)))
                 return res
+        if dn in ('std::iter::Iterator::find', 'std::iter::Iterator::position', 'std::iter::Iterator::any', 'std::iter::Iterator::find_map') and len(e['args']) == 2:
+            first = self.run(e['args'][0], st)
+            if all(k1 != 'val' or v1[0] == 'list' for (_, k1, v1) in first) and any(k1 == 'val' for (_, k1, v1) in first):
+                res = []
+                for (s1, k1, v1) in first:
+                    if k1 != 'val': res.append((s1, k1, v1)); continue
+                    outs, ab = self.run_seq(e['args'][1:], s1)
+                    res.extend(ab)
+                    for (s2, vs) in outs:
+                        f = vs[0]
+                        if f[0] not in ('closure', 'fnitem'): raise Undec('search with a test that is not spelt out', loc)
+                        # the rows are tried in order; the test must be decided (and must not read tokens) on every row
+                        cur = [(s2, None)]
+                        m = dn.split('::')[-1]
+                        for i_, row in enumerate(v1[1]):
+                            nxt = []
+                            for (s3, hit) in cur:
+                                if hit is not None: nxt.append((s3, hit)); continue
+                                for (s4, k4, v4) in self.apply(f, [row], s3, loc):
+                                    if k4 != 'val': raise Undec('the test of a search leaves the function', loc)
+                                    if m == 'find_map':
+                                        if v4[0] not in ('some', 'none'): raise Undec('find_map with an undecided result', loc)
+                                        nxt.append((s4, v4 if v4[0] == 'some' else None))
+                                    else:
+                                        if v4[0] != 'lit' or not isinstance(v4[1], bool): raise Undec('search with a test that is not decided on this path', loc)
+                                        nxt.append((s4, (('some', row) if m == 'find' else ('some', ('lit', i_)) if m == 'position' else ('lit', True)) if v4[1] else None))
+                            cur = nxt
+                        for (s3, hit) in cur:
+                            res.append((s3, 'val', hit if hit is not None else (('lit', False) if m == 'any' else ('none',))))
+                return res
+        if (cn in ('core::slice::<impl [T]>::iter',) or dn in ('std::iter::IntoIterator::into_iter', 'std::iter::Iterator::copied', 'std::iter::Iterator::cloned')) and len(e['args']) == 1:
+            first = self.run(e['args'][0], st)
+            if all(k1 != 'val' or v1[0] == 'list' for (_, k1, v1) in first) and any(k1 == 'val' for (_, k1, v1) in first): return first
         if cn == 'std::result::Result::map' and len(e['args']) == 2:
             first = self.run(e['args'][0], st)
             if all(k1 != 'val' or v1[0] in ('res', 'ok', 'err') for (_, k1, v1) in first):
@@ -851,7 +997,7 @@ class Walker:
                 res.append((s.with_ev(('la', frozenset([v[1]]))), 'val', ('lit', want_ok)))
                 res.append((s.with_ev(('nla', frozenset([v[1]]))), 'val', ('lit', not want_ok)))
             elif cn in self.K:
-                lits = tuple((v[1] if v[0] == 'lit' else v) for v in vs[1:] if v[0] == 'lit' or (v[0] == 'enum' and len(v) == 3) or v[0] in ('token', 'fnitem'))
+                lits = tuple((v[1] if v[0] == 'lit' else v[:2] if v[0] == 'token' else v) for v in vs[1:] if v[0] == 'lit' or (v[0] == 'enum' and len(v) == 3) or v[0] in ('token', 'fnitem'))
                 if len(lits) != len(vs) - 1: raise Undec('call to %s with a non-constant extra argument' % cn, loc)
                 s2 = s.with_ev(('nt', cn, lits))
                 res.append((s2, 'val', ('res', ('ev', len(s2.ev) - 1))))
@@ -1246,6 +1392,15 @@ def rule_A3(F, R, ex=None):
                     want = 'VEC[NT:parse_sub_formula@*]' if fname.endswith('formula_list') else 'VEC[NT:parse_variable_name@*]'
                     d = desc(v)
                     ok = d in (want, 'VEC[]')
+                    if not ok and d.startswith('VEC[') and d.endswith(']'):
+                        # members collected before the loop as well as in it (`first; while next_if_eq(Comma) { more }`): every element is a parsed
+                        # member, and every member parsed outside a loop is in the list
+                        import re as _re
+                        member = want[4:-3]       # NT:parse_...
+                        items = d[4:-1].split(',')
+                        single = [it for it in items if not it.endswith('@*')]
+                        top = sum(1 for ev in evs if ev[0] == 'nt' and 'NT:' + ev[1].split('::')[-1] == member)
+                        ok = all(_re.fullmatch(_re.escape(member) + r'@(\*|\d+)', it) for it in items) and len(single) == top
                     R.count('A3:constructor-paths'); R.obligation(ok, 'A3 list ' + fname)
                     if not ok: R.violation('%s / A3 / list contents' % fname, 'A3', 'the returned list must collect exactly the parsed members; got %s' % d)
                 elif fname == SUB and desc(v) .startswith('NT:parse_simple_sub_formula'):
@@ -1392,6 +1547,9 @@ def check_cons(R, fname, v, seq, fields, lits, seen):
         seen['FixedPoint:' + init.lower()] = True; R.obligation(True, 'A3 FixedPoint ' + kw); return
     ref = REF_CONS.get(name)
     if ref is None: return bad('unexpected constructor %s in the parser' % name)
+    alt = {'Var': (['Var'], ['PAYLOAD:Var@0']), 'Reference': (['Reference'], ['PAYLOAD:Reference@0'])}.get(name)      # the name token read in place
+    if alt is not None and seq == alt[0] and fields == alt[1]:
+        seen[name] = True; R.obligation(True, 'A3 %s' % name); return
     if seq != ref[0] or fields != ref[1]:
         return bad('%s built from %s with fields %s; reference: %s with fields %s' % (name, seq, fields, ref[0], ref[1]))
     seen[name] = True
